@@ -44,7 +44,10 @@ def check(run):
     az0 = G.Atomizer(is_int=lambda e: True)
     f = az0.formula(loop.test)
     want = az0.formula(common.spec_expr(f"{START} >= 0"))
-    ok, _ = G.equivalent(f, want)
+    # START only ever holds the result of a find() (>= -1): `!= -1` and `> -1` are other spellings of `>= 0`
+    st_stores = [x for x in own_nodes(fa.node) if isinstance(x, ast.Assign) and len(x.targets) == 1 and common.is_name(x.targets[0], START)]
+    find_only = bool(st_stores) and all(isinstance(x.value, ast.Call) and isinstance(x.value.func, ast.Attribute) and x.value.func.attr == "find" for x in st_stores)
+    ok, _ = G.equivalent(f, want, assuming=az0.formula(common.spec_expr(f"{START} >= -1")) if find_only else G.T)
     run.ob("R3-advance", "keyword.find_all/loop-condition", ok, w(loop), "the search continues exactly while an occurrence was found (start >= 0)",
            f"loop condition is `{norm_src(loop.test)}`", mech="truth table with integer theory")
     # R6 empty keyword guard before the loop
@@ -82,7 +85,7 @@ def check(run):
         det = f"`{norm_src(v)}`"
         if isinstance(v, ast.Call) and isinstance(v.func, ast.Attribute) and v.func.attr == "find" and common.is_name(v.func.value, DATA) \
                 and len(v.args) == 2 and common.is_name(v.args[0], KW) and not v.keywords:
-            env = common.block_env(loop.body, adv[0]) or {}
+            env = common.block_env(fa.body, adv[0]) or {}
             azl = G.Atomizer(subst=env)
             lf = lin_of_ast(azl.inline(v.args[1]), lambda x: Lin.sym(norm_src(x)))
             oka = lf is not None and lf == Lin.sym(START) + Lin.sym(f"len({KW})")
@@ -94,7 +97,7 @@ def check(run):
     need(len(apps) == 1, "anchor: one append in find_all's loop")
     app = apps[0]
     OUT = norm_src(app.func.value)
-    env = common.block_env(loop.body, common.enclosing_stmt(app)) or {}
+    env = common.block_env(fa.body, common.enclosing_stmt(app)) or {}
 
     def is_int(e):
         s = norm_src(e)
@@ -121,20 +124,31 @@ def check(run):
     sites = [n for n in own_nodes(fk.node) if isinstance(n, ast.Call) and prog.is_node_ctor(km, fk, n)]
     need(len(sites) == 1, "anchor: one Node(...) in find_keywords")
     site = bind_node_call(prog, km, fk, sites[0], lambda e: None)
+    # the iteration structure around the Node(...): a two-level comprehension or two nested for loops
+    levels = []       # innermost first: (target name, iterable)
     comp = None
     for p in common.parents(sites[0]):
         if isinstance(p, (ast.ListComp, ast.GeneratorExp)):
-            comp = p
-            break
-    need(comp is not None and len(comp.generators) == 2, "anchor: find_keywords builds hits in a two-level comprehension")
-    g_kw, g_st = comp.generators
-    K, S = g_kw.target.id, g_st.target.id
-    run.ob("R4-roles", "keyword.find_keywords/iterates-keywords", common.is_name(g_kw.iter, KWS) and not g_kw.ifs and not g_st.ifs, w(comp),
-           "every listed keyword is searched, nothing is filtered", f"outer iteration `{norm_src(g_kw.iter)}` ifs={len(g_kw.ifs) + len(g_st.ifs)}",
-           mech="comprehension shape")
+            comp = comp or p
+            for g in reversed(p.generators):
+                levels.append((g.target.id if isinstance(g.target, ast.Name) else None, g.iter, len(g.ifs)))
+        elif isinstance(p, ast.For):
+            comp = comp or p
+            levels.append((p.target.id if isinstance(p.target, ast.Name) else None, p.iter, 0))
+        elif isinstance(p, ast.If):
+            levels.append((None, None, 1))      # a filter around the construction
+    filters = sum(x[2] for x in levels)
+    levels = [x for x in levels if x[1] is not None]
+    need(len(levels) == 2 and all(x[0] for x in levels), "anchor: find_keywords builds hits in two nested iterations (keywords, then occurrences)")
+    (S, st_iter, _f1), (K, kw_iter, _f2) = levels
+    g_st_iter = st_iter
+    run.ob("R4-roles", "keyword.find_keywords/iterates-keywords", common.is_name(kw_iter, KWS) and filters == 0, w(comp),
+           "every listed keyword is searched, nothing is filtered", f"outer iteration `{norm_src(kw_iter)}` filters={filters}",
+           mech="iteration structure")
     # R2 both operands lowered
-    env2 = common.block_env(fk.node.body, common.enclosing_stmt(sites[0])) or {}
-    call = g_st.iter
+    env2 = common.block_env(fk.node.body, common.enclosing_stmt(sites[0]), unpack=True) or {}
+    env2 = {k: v for k, v in env2.items() if k not in (K, S)}
+    call = g_st_iter
     ok2 = False
     det = f"`{norm_src(call)}`"
     if isinstance(call, ast.Call) and prog.callee(km, fk, call).func is fa and len(call.args) == 2:
@@ -145,7 +159,8 @@ def check(run):
     run.ob("R2-lowering", "keyword.find_keywords/both-lowered", ok2, w(comp),
            "the search compares keyword.lower() with data.lower() (case-insensitive on both sides, same data the spans index)", det,
            mech="argument provenance")
-    a = site.args
+    inl = G.Atomizer(subst=env2)
+    a = {k: (inl.inline(v) if isinstance(v, ast.AST) else v) for k, v in site.args.items()}
     run.ob("R4-roles", "keyword.find_keywords/type-is-label", common.is_name(a["type_"] if "type_" in a else a[prog.node_class_params()[0]], LABEL), w(sites[0]),
            "the hit's type is the keyword list's name", f"type = `{norm_src(a[prog.node_class_params()[0]])}`", mech="constructor binding")
     run.ob("R4-roles", "keyword.find_keywords/value-is-listed-keyword", common.is_name(a["value"], K), w(sites[0]),
@@ -194,10 +209,11 @@ def check(run):
                     ren[tv] = "RAWB"
                 elif common.is_name(arg, VAL):
                     ren[tv] = "KWB"
-            if set(ren.values()) == {"RAWB", "KWB"} and len(lp.body) == 1 and isinstance(lp.body[0], ast.If):
-                i1 = lp.body[0]
+            if set(ren.values()) == {"RAWB", "KWB"} and lp.body and isinstance(lp.body[-1], ast.If) and all(isinstance(x, (ast.Assign, ast.AnnAssign)) for x in lp.body[:-1]):
+                i1 = lp.body[-1]
                 if len(i1.body) == 1 and isinstance(i1.body[0], ast.Return) and prog.try_fold(km, i1.body[0].value) is True and not i1.orelse:
-                    azb = G.Atomizer(rename=ren)
+                    envb = common.block_env(lp.body, i1, unpack=True) or {}
+                    azb = G.Atomizer(rename=ren, subst={k: v for k, v in envb.items() if k not in ren})
                     ok_loop, cm = G.equivalent(azb.formula(i1.test), azb.formula(common.spec_expr(SPEC.C17_MIXED_BYTE)))
                     det = f"per-byte test {G.show(azb.formula(i1.test))}"
         ok_tail = prog.try_fold(km, rt.value) is False
